@@ -328,6 +328,86 @@ type Scenario struct {
 	Ours     []Op    `json:"ours"`
 	Theirs   []Op    `json:"theirs"`
 	Resolve  string  `json:"resolve"` // none | ours | theirs
+	// MultiRows > 0: a multi-chunk table t(pk, c1 int) with keys 1..MultiRows and c1 = MultiVal(k); the
+	// base rows are not listed.  When Ours/Theirs are empty the harness derives them from the leaf-chunk
+	// end keys it discovers at run time (seeded by MultiSeed) and stores them here for the replay.
+	MultiRows int    `json:"multi_rows,omitempty"`
+	MultiSeed uint64 `json:"multi_seed,omitempty"`
+}
+
+// MultiVal is the base value of key k in a multi-chunk scenario.
+func MultiVal(k int64) int64 { return (k*37 + 11) % 1000 }
+
+// GenMultiOps places the edits of a multi-chunk scenario on chunk-boundary keys and their neighbours.
+// ends = last key of every leaf chunk of the base table, ascending.  Shape (and, because the harness
+// merges both ways round, its mirror): both sides edit the first chunk (both patch generators descend
+// to leaf level); ours edits every chunk up to chunk X (stays at leaf level) and, inside X, ONLY X's
+// last key; theirs skips at least one chunk before X (re-ascends, X comes as ONE range patch) and
+// edits an inner key of X — optionally X's last key too (conflict) or deletes there.  Further random
+// edits land on end keys, end+1 (first key of the next chunk) and end-1 beyond X.
+func GenMultiOps(r *hx.Rng, ends []int64, nrows int64) (ours, theirs []Op) {
+	upd := func(k, v int64) Op { return Op{Kind: "upd", Key: k, Col: 1, V: IntV(v)} }
+	del := func(k int64) Op { return Op{Kind: "del", Key: k} }
+	if len(ends) < 4 {
+		// single-chunk fallback: a few plain edits
+		return []Op{upd(1, -1)}, []Op{upd(2, -2)}
+	}
+	x := r.Range(2, len(ends)-2) // chunk X (0-based); chunks 1..x-1 lie between the collision chunk and X
+	ours = append(ours, upd(1, -1))
+	if r.Chance(1, 3) {
+		theirs = append(theirs, upd(1, -2)) // same key: a cell conflict in the first chunk
+	} else {
+		theirs = append(theirs, upd(2, -2))
+	}
+	for i := 1; i < x; i++ {
+		k := ends[i-1] + 1 + int64(r.Intn(int(ends[i]-ends[i-1])))
+		if k >= ends[i] {
+			k = ends[i] - 1
+		}
+		if r.Chance(1, 4) {
+			k = ends[i-1] + 1 // first key of the chunk
+		}
+		ours = append(ours, upd(k, -3))
+	}
+	// inside X: ours only the last key
+	switch r.Intn(4) {
+	case 0:
+		ours = append(ours, del(ends[x]))
+	default:
+		ours = append(ours, upd(ends[x], -4))
+	}
+	inner := ends[x-1] + 1 + int64(r.Intn(int(ends[x]-ends[x-1]-1)))
+	theirs = append(theirs, upd(inner, -5))
+	switch r.Intn(4) {
+	case 0:
+		theirs = append(theirs, upd(ends[x], -6)) // both edit X's last key differently
+	case 1:
+		theirs = append(theirs, upd(ends[x]-1, -6))
+	}
+	// beyond X: boundary keys and neighbours on either side
+	for i := x + 1; i < len(ends) && i < x+4; i++ {
+		k := ends[i] + int64(r.Range(-1, 1))
+		if k < 1 || k > nrows {
+			continue
+		}
+		o := upd(k, int64(-10-i))
+		if r.Chance(1, 5) {
+			o = del(k)
+		}
+		switch r.Intn(3) {
+		case 0:
+			ours = append(ours, o)
+		case 1:
+			theirs = append(theirs, o)
+		default:
+			ours = append(ours, o)
+			theirs = append(theirs, upd(k, int64(-20-i)))
+		}
+	}
+	if r.Bool() {
+		theirs = append(theirs, Op{Kind: "ins", Key: nrows + 1, Row: []Val{IntV(5)}})
+	}
+	return ours, theirs
 }
 
 var intDomain = []int64{0, 1, 2, 5, 7, 10, -1}
